@@ -107,6 +107,32 @@ func regSingle[T signal.SignalTypes](name string) {
 			*b = saved
 		}
 	})
+	put("appendSiblingWindowWithinCapacity", func(c *Case) func() {
+		// source and destination are disjoint windows of one parent (they share its storage)
+		F := c.F
+		parent := signal.Alloc[T](signal.Allocator{Channels: c.C, Length: 2*F + 4, Capacity: 2*F + 4})
+		b := parent.Slice(0, 0)
+		if c.Window {
+			b = parent.Slice(1, 1)
+		}
+		src := parent.Slice(F+3, 2*F+3)
+		saved := *b
+		return func() {
+			b.Append(src)
+			*b = saved
+		}
+	})
+	put("appendSelfWithinCapacity", func(c *Case) func() {
+		b := signal.Alloc[T](signal.Allocator{Channels: c.C, Length: c.F, Capacity: 2*c.F + 1})
+		if c.Window {
+			b = signal.Alloc[T](signal.Allocator{Channels: c.C, Length: c.F + 1, Capacity: 2*c.F + 2}).Slice(1, c.F+1)
+		}
+		saved := *b
+		return func() {
+			b.Append(b)
+			*b = saved
+		}
+	})
 	put("channelViewGetSet", func(c *Case) func() {
 		b := mkBuf[T](c)
 		ch := c.C - 1
@@ -241,7 +267,7 @@ func init() {
 	regRow[float64]("float64")
 }
 
-var SingleOps = []string{"sampleGetSet", "appendSampleBelowCapacity", "appendSampleAtCapacity", "appendWithinCapacity", "appendWithinCapacityPartialFrames", "channelViewGetSet", "poolCycle", "poolCycleAcrossCopies", "sliceEscaping", "sliceLocal"}
+var SingleOps = []string{"sampleGetSet", "appendSampleBelowCapacity", "appendSampleAtCapacity", "appendWithinCapacity", "appendWithinCapacityPartialFrames", "appendSiblingWindowWithinCapacity", "appendSelfWithinCapacity", "channelViewGetSet", "poolCycle", "poolCycleAcrossCopies", "sliceEscaping", "sliceLocal"}
 var PairOps = []string{"write", "read", "writeStriped", "readStriped"}
 
 func Check(c *Case) (res kit.Result) {
